@@ -29,6 +29,7 @@ REGRESSIONS = ["A = B(P=-0.a001)", "A = B(P = -0.0x, Q = [-0.0, -0.])", "A = B(x
 HISTORY = ['A = B(P = "Dry season")', 'A = B(P = "Dry  season")', 'A = B(P = "Dry\tseason")', "A = B(P = 'Dry season')", 'A = B(P = "Dry season" )',
            "A = B(x = 1) # c\nC = D(y = 2)", "A = B(x = 1) # c C = D(y = 2)", "A = B(x = 1)\n# c\nC = D(y = 2)", "A = B(\n  x = 1\n)\nC = D(\n  y = [2,\n 3]\n)",
            "A = B(x = 1)\nC = D(y = [2, 3])", "A = B(x = [k: 1, m: 2.5, n: v, o: \"7\"])", "A = B(x = [k: 7])", 'A = B(x = [k: "7"])', "A = B(x = [k: 7.0])",
+           "READ(InFileName = x.csv, InFieldName = a)", 'A = B(OutFileName = "x", P = 1, NewFieldName = y)', "A = B(OutFileName = o)\nC = D(NewFieldName = n, Q = [1])",
            "A = B(P = [[k: 1, m: x], 2])", "A = B(P = [1, [[k: 2.5]], [m: \"q r\", n: 3]])"]
 
 
@@ -90,7 +91,7 @@ def run(ctx):
             ctx.fail("parsing raised %s instead of SyntaxError" % real[4:], {"source": src})
         # the same text loaded as a program (Program.from_source with a library that has every command name): the commands are handed exactly
         # what was parsed - names, values with their kinds, nesting, tuples, line numbers - whatever was loaded before in this process
-        want = parsing.expected_load(src)
+        want = parsing.expected_load(src, version=3 if ans2.startswith("ok v3 ") else 2 if ans2.startswith("ok v2 ") else None)
         if want is not None:
             got = parsing.real_load(src)
             ctx.count("loaded_through_from_source")
